@@ -187,7 +187,10 @@ def run(chk):
             chk.violation("C05|pcDelta|maxseqs|differs", f"pcDelta(maxseqs={m}) is not the histogram of a sub-sample of {min(N, m)} elements",
                           {"xs": xs, "m": m, "real": real[1], "of_subsample": want})
     # ---- background table bins
+    nb = core.call_real(lambda: ds.load_pcDelta_background(return_bins=False))
     back = core.call_real(lambda: ds.load_pcDelta_background())
+    if nb[0] != "ok" or back[0] != "ok" or not nb[1].equals(back[1][0]):
+        chk.violation("C05|load_pcDelta_background|return_bins", "load_pcDelta_background(return_bins=False) is not the table returned with the bins", {})
     chk.case(nontrivial_key="background")
     if back[0] != "ok":
         chk.violation("C05|load_pcDelta_background|raises", f"load_pcDelta_background raised {back[1]}", {})
